@@ -28,7 +28,7 @@ COMPONENTS = {
     "real": ["eolib.data.EoWriter", "eolib.data.EoReader", "number and string codecs"],
     "stub_or_harness": ["history generator", "expected-value computation"],
 }
-PROBES = ["same_string_written_again", "perfect_fit_padded", "empty_string", "non_cp1252_character", "int_at_max", "trailing_unbounded_string",
+PROBES = ["refused_write_in_history", "very_long_padding", "same_string_written_again", "perfect_fit_padded", "empty_string", "non_cp1252_character", "int_at_max", "trailing_unbounded_string",
           "y_diaeresis_in_unpadded_string", "empty_padded_string"]
 
 INT_KINDS = ["char", "short", "three", "int"]
@@ -45,6 +45,10 @@ def generate(streams, tier):
     pool = StringPool(vr)
     for i in range(n):
         r = rng.random()
+        if rng.random() < 0.04:
+            # a write that must be refused (and leave nothing behind); the history goes on afterwards
+            ops.append(["refused", pool.get(vr, min_len=2), rng.choice(["fixed", "fixed_encoded", "padded"])])
+            continue
         if r < 0.08:
             ops.append(["byte", vr.randrange(256)])
         elif r < 0.13:
@@ -56,7 +60,7 @@ def generate(streams, tier):
             enc = rng.random() < 0.5
             padded = rng.random() < 0.5
             s = pool.get(vr, allow_y=not padded, allow_tilde=not enc)
-            length = len(s) + (rng.choice([0, 0, 1, 2, 7]) if padded else 0)
+            length = len(s) + (rng.choice([0, 0, 1, 2, 7, 7, 253, 300, 1000]) if padded else 0)
             ops.append(["fixed_encoded" if enc else "fixed", s, length, padded])
     if rng.random() < 0.5:
         enc = rng.random() < 0.5
@@ -88,6 +92,18 @@ def execute(plan, env):
     declared = 0
     for step, o in enumerate(ops):
         k = o[0]
+        if k == "refused":
+            try:
+                if o[2] == "fixed":
+                    w.add_fixed_string(o[1], len(o[1]) - 1)
+                elif o[2] == "fixed_encoded":
+                    w.add_fixed_encoded_string(o[1], len(o[1]) + 1)
+                else:
+                    w.add_fixed_string(o[1], len(o[1]) - 1, True)
+                return fail("not-refused", k, f"step {step}: a write with a wrong length was accepted: {o!r}", step)
+            except ValueError:
+                res.count("probe.refused_write_in_history")
+            continue
         try:
             if k in WRITE:
                 getattr(w, WRITE[k])(o[1]); declared += {"byte": 1, "char": 1, "short": 2, "three": 3, "int": 4}[k]
@@ -117,6 +133,8 @@ def execute(plan, env):
                 res.count("probe.non_cp1252_character")
             if len(o) > 3 and o[3] and len(s) == o[2] and s:
                 res.count("probe.perfect_fit_padded")
+            if len(o) > 3 and o[3] and o[2] - len(s) > 252:
+                res.count("probe.very_long_padding")
             if "ÿ" in s and len(o) > 3 and not o[3]:
                 res.count("probe.y_diaeresis_in_unpadded_string")
             if k.startswith("tail"):
@@ -128,6 +146,8 @@ def execute(plan, env):
     r = EoReader(bytes(out))
     for step, o in enumerate(ops):
         k = o[0]
+        if k == "refused":
+            continue
         try:
             if k == "byte":
                 got, want = r.get_byte(), o[1]
@@ -154,7 +174,7 @@ def execute(plan, env):
     kinds = [o[0] + ("P" if len(o) > 3 and o[3] else "") for o in ops]
     if len(ops) >= 2:
         classes = sorted({("y" if "ÿ" in o[1] else "") + ("u" if image(o[1]) != o[1] else "") + ("e" if not o[1] else "")
-                          for o in ops if isinstance(o[1], str)})
+                          for o in ops if isinstance(o[1], str) and o[0] != "refused"})
         res.keys.add(",".join(kinds[:3]) + "|" + "/".join(classes))
     res.digest = tr.digest()
     res.steps = tr.steps
